@@ -1,4 +1,5 @@
 import CsVerif.Lemmas.C13
+import CsVerif.Gen.StrLit
 /-! C13 property theorems: a profile generated from a beacon configuration is valid and faithful.
 
 Model: `fromBeaconConfig` (Model/C13.lean) on the pretty values `settings_by_index` presents and `config.uris`;
@@ -88,6 +89,12 @@ theorem blocks_match :
 theorem listProps_pinned : listProps.length = 9 := by decide +kernel
 
 
+/-- the STRING terminal is the regular expression C12's scanner (used by `litOK`) was derived from -/
+theorem string_pattern_is_modelled :
+    Gen.StrLit.stringPattern = C12.modelledPattern ∧ Gen.StrLit.stringPatternFlags = [] ∧
+      Gen.StrLit.globalRegexFlags = 0 ∧ Gen.StrLit.quoteTerminals = ["STRING"] := by
+  decide
+
 /-! ### generation never fails -/
 
 /-- For every well-formed configuration `from_beacon_config` returns a tree (no exception). -/
@@ -115,6 +122,49 @@ theorem generated_valid (cfg : List (Nat × PVal)) (uris : List (Option Bytes)) 
   have hp := print_of_deriv d hd
   rw [hdt] at hp
   exact ⟨d, hd, hdt, hp, by simp [printable, hp]⟩
+
+/-- Every token of the generated tree is well formed: an OPTION token is an alternative of the OPTION terminal, and every
+STRING token (configuration text with `"` escaped, numbers, `repr`-escaped bytes, the `"X" * n` placeholders, constants)
+is matched by the STRING regular expression as exactly one token (`litOK`: C12's scanner consumes it up to its own
+closing quote and nothing else) — no value can end its literal early or leave it open. -/
+theorem generated_tokens_wellformed (cfg : List (Nat × PVal)) (uris : List (Option Bytes))
+    (h : WellFormedCfg cfg uris = true) (t : PTree) (ht : fromBeaconConfig cfg uris = .ok t) : tokensOK t.kids = true := by
+  simp only [WellFormedCfg, Bool.and_eq_true] at h
+  unfold fromBeaconConfig at ht
+  cases hr : runSettings uris St.init cfg with
+  | error e => simp [hr] at ht
+  | ok st =>
+    simp only [hr, Except.ok.injEq] at ht
+    subst ht
+    exact finalize_tk (runSettings_tk uris cfg St.init st h.2 ⟨fun _ => rfl, fun _ h => by cases h⟩ hr)
+
+/-- such a literal is a lexable token in the sense of C10's lexer model (whatever the keyword set) -/
+theorem literal_token_lexes (kws : List C10.Text) (tok : Bytes) (h : litOK tok = true) :
+    C10.lexableTok kws (toText tok) = true :=
+  litOK_lexable kws tok h
+
+/-- The regenerated text is valid: for every well-formed configuration whose tree carries no `# dns_resolver` comment
+statement (`noComment`; the comment is, by design, not a token sequence for the lexer), `as_text()` exists and lexes
+— white space and indentation of `postproc` included — back to exactly the tokens the Reconstructor printed, i.e. to the
+token sequence of a derivation of the grammar (C10's lexer model `lexProfile`, any identifier-character test `idc`
+that rejects blank, line feed and `;`). -/
+theorem generated_text_relexes (idc : Nat → Bool) (hidc : C10.IdcOK idc) (cfg : List (Nat × PVal))
+    (uris : List (Option Bytes)) (h : WellFormedCfg cfg uris = true) (t : PTree) (ht : fromBeaconConfig cfg uris = .ok t)
+    (hc : noComment t.kids = true) :
+    ∃ toks, C10.printTree C10.gen t.intern = some toks ∧
+      (C10.asText C10.gen idc t.intern).bind (C10.lexProfile C10.gen.words) = some (toks.map C10.gen.tokText) := by
+  have htk := generated_tokens_wellformed cfg uris h t ht
+  simp only [WellFormedCfg, Bool.and_eq_true] at h
+  unfold fromBeaconConfig at ht
+  cases hr : runSettings uris St.init cfg with
+  | error e => simp [hr] at ht
+  | ok st =>
+    simp only [hr, Except.ok.injEq] at ht
+    subst ht
+    obtain ⟨st', hs', hi⟩ := runSettings_inv uris cfg St.init h.2 inv_init
+    rw [hr] at hs'
+    cases hs'
+    exact relex_of_valid idc hidc (finalize st).kids (finalize_allOf hi) htk hc
 
 /-- Blocks with no content are omitted: in the generated tree no node that is printed as `keyword { … }` (http_get,
 http_post, stage, process_inject, dns_beacon, http_beacon, client, server, output, metadata, id, transform_x86/x64,
@@ -164,6 +214,13 @@ theorem text_literal_decodes (s : Bytes) (h : wfText s = true) :
     C12.stringTokenToBytes (C12.valueToStringStr s) = .ok s :=
   str_roundtrip s (wfText_noBackslash s h)
 
+/-- every plain option states its value: the literal written for a number / text / bytes value decodes to the decimal
+digits / the text / the bytes -/
+theorem scalar_literal_decodes (v : PVal) (hw : wfScalar v = true) :
+    ∃ s, vts v = some s ∧ C12.stringTokenToBytes s = .ok (scalarBytes v) := by
+  obtain ⟨s, hs⟩ := wfScalar_vts hw
+  exact ⟨s, hs, vts_decodes hw hs⟩
+
 /-- byte-valued options (frame headers, transform arguments, static headers) decode to the exact bytes -/
 theorem bytes_literal_decodes (v : Bytes) : C12.stringTokenToBytes (C12.valueToString v) = .ok v :=
   C12.roundtrip v
@@ -181,6 +238,8 @@ def exampleCfg : List (Nat × PVal) := [
 
 example : WellFormedCfg exampleCfg [some [47, 120]] = true := by decide +kernel
 example : (fromBeaconConfig exampleCfg [some [47, 120]]).toOption.map printable = some true := by decide +kernel
+example : (fromBeaconConfig exampleCfg [some [47, 120]]).toOption.map (fun t => noComment t.kids) = some true := by
+  decide +kernel
 example : (fromBeaconConfig exampleCfg [some [47, 120]]).toOption.map (fun t => (specDict t.reparsed).length) = some 14 := by
   decide +kernel
 
